@@ -386,8 +386,7 @@ def gen_null_case(rng, method):
     if method == "eigen":
         t = nice_divisor(rng)
     elif method == "svd":
-        # real part a power of two, imaginary part arbitrary
-        t = complex(rng.choice([1, -1, 2, -2, 4, 8]), rng.randint(-5, 5))
+        t = nice_divisor(rng)
     else:
         t = complex(rng.choice([1, -1, 2, -2, 4]), rng.randint(-3, 3))
     V[n - 1, n - 1] = t - cur
@@ -934,8 +933,8 @@ SVD_WITNESS = {"kind": "witness", "dims": [3],
 
 
 def witness_svd(ctx):
-    """replay of C18_svd_refuted on the implementation; also ties the Coq
-    literal wL to qutip.liouvillian."""
+    """regression for the repaired svd normalisation (C18_svd_witness_normalised);
+    also ties the Coq literal wL to qutip.liouvillian."""
     import qutip as qt
     s = SVD_WITNESS
     Hq, Cq = sys_qobjs(s, "csr")
@@ -957,28 +956,18 @@ def witness_svd(ctx):
         r = qt.steadystate(Hq, Cq, method="svd")
     M = r.full()
     bad = check_result(s, L, rho_ex, r, "svd", None)
-    if bad and phase_symptom(M, rho_ex):
-        ctx.violation("steadystate:svd",
-                      {"symptom": "result = (1 + i t) * rho_ss, t != 0", "rho00": "zero"},
-                      "steadystate(method='svd') returns (1+i*t)*rho_ss on the Coq witness",
+    if bad:
+        sig = {"symptom": "result = (1 + i t) * rho_ss, t != 0", "rho00": "zero"} \
+            if phase_symptom(M, rho_ex) else {"symptom": bad[0], "rho00": "zero", "witness": True}
+        ctx.violation("steadystate:svd", sig,
+                      "steadystate(method='svd') wrong on the 3-level witness: %s" % bad,
                       {"system": s, "cfg": ["svd", None, {}], "fmt": "csr", "input": "H", "seed": 0,
                        "symptoms": bad, "trace": [np.trace(M).real, np.trace(M).imag]})
-    elif bad:
-        ctx.violation("steadystate:svd", {"symptom": bad[0], "rho00": "zero", "witness": True},
-                      "steadystate(method='svd') wrong on the witness: %s" % bad,
-                      {"system": s, "cfg": ["svd", None, {}], "fmt": "csr", "input": "H", "seed": 0,
-                       "symptoms": bad})
-    else:
-        ctx.notes.append("svd witness no longer reproduces on the implementation: "
-                         "C18_svd_refuted describes a model that is out of date")
-        ctx.violation("corr:svd-witness", "model-out-of-date",
-                      "the implementation no longer shows the modelled svd defect; "
-                      "Model/C18.v svd_post must be updated", {"system": s}, found_input=False)
 
 
 def witness_power_maxiter(ctx):
-    """replay of C18_power_maxiter_refuted: count the solves needed, then
-    allow exactly that many."""
+    """regression for C18_power_maxiter_accepts_last_iterate: count the solves
+    needed, then allow exactly that many."""
     import qutip as qt
     import qutip.core.data as _data
     H = qt.sigmax()
